@@ -424,7 +424,9 @@ def run_check(prop, tier, seed):
             space = sm["max"]["enum_space_per_configuration"]
             be[name] = dict(arrays_enumerated=sm["sum"]["enum_cases"], space_per_configuration=space,
                             configurations_enumerated_completely=sm["sum"]["enum_cases"] // space,
-                            what="every sorted array of length 1..7 over 9 consecutive key values at lowest(), mid-type and ending at max-1, all neighbouring queries")
+                            what=("both initial states (empty, bulk load of 6 keys) x every sequence of 1..5 insert_or_assign / erase operations over 5 keys, "
+                                  "base 2, buffer of 3, every deeper level indexed; full observation after every operation") if name.startswith("dynamic")
+                            else "every sorted array of length 1..7 over 9 consecutive key values at lowest(), mid-type and ending at max-1, all neighbouring queries")
     if be:
         cov["bounded_exhaustive"] = be
     extra = plan.get("evidence_extra")
